@@ -442,6 +442,13 @@ class World:
         if len(l.unacked) == MAX_INFLIGHT:
             self.pause_reasons[k].add("inflight-full")
         l.calm_drain = i if (not l.owe_ready and not l.unacked and not l.pending) else None
+        # ---- C19: a connection the admission rules accept (valid id; after a takeover of the
+        # same client id the broker is below max_connections) is acknowledged: once the router
+        # has gone idle after the Connect event, the ConnAck must be in the link's buffer
+        if l.registered and l.id is None and l.ended is None and not getattr(l, "c19_flagged", False) \
+                and any(l.at < p_ < i for p_ in self.idle_points):
+            l.c19_flagged = True
+            self.viol(i, "C19", "admissible link %d (%r) was not acknowledged: the router went idle after its Connect and no ConnAck arrived" % (k, l.name))
 
     def op_READY(self, i, t, ans):
         l = self.owner.get(int(t[1]))
@@ -937,8 +944,9 @@ def evaluate(ops, answers):
     if w.lost is not None:
         # the ghost's picture of which connection owns which id was refuted by a ConnAck:
         # nothing it concluded about deliveries/acks is reliable; keep only the panic clause
-        dropped = [v for v in w.v if v[1] != "C03"]
-        w.v = [v for v in w.v if v[1] == "C03"]
+        keep = lambda v: v[1] == "C03" or (v[1] == "C19" and v[0] < w.lost)
+        dropped = [v for v in w.v if not keep(v)]
+        w.v = [v for v in w.v if keep(v)]
         w.skips["ghost-lost-history"] += 1
         w.skips["ghost-lost-dropped-alarms"] += len(dropped)
         w.dropped = dropped
